@@ -34,6 +34,8 @@ CHECKS = {
          "that SciPy's iterate is a maximiser is outside the technique (only the wiring is decided); numpy.linalg.solve/inv/cholesky on symbolic matrices are contract stubs"),
  'C16': ("CGLS/PCGLS (matrix, sparse and function operator, symbolic b, x0, shift): on every explored path the norm the stopping rule tests is the (shifted/preconditioned) normal-equation residual of the RETURNED x and norms0 that of x0, the operator forms give identical iterates, the start vector is untouched; FISTA/ISTA iterates equal the proximal-gradient map for symbolic step size and regularisation strength and an abstol exit implies ||T(y)-y|| <= abstol; LM returns (x, info) with info belonging to x (uninterpreted residual/Jacobian); SciPy wrappers hand over the given objective/gradient (negated for maximize) and return SciPy's result; ProjectNonnegative/ProjectBox/ProximalL1 satisfy the variational characterisation of the projection/prox for ALL inputs",
          "bounded path exploration (fork budget per configuration; unexplored alternatives counted in paths_cut); 1 CGLS iteration in quick, 2 in thorough (stretch); exits through maxit or normx*tol>=1 are not convergence and outside the claim"),
+ 'C18': ("steady-state: for ALL parameters the system handed to the solver is the one assembled for that parameter and (default solver contract) A(p)u = f(p); user solvers' solution, kwargs and extra return values are passed through; time-dependent: for non-uniform steps and operators/sources depending on parameter and time, every stored level satisfies the forward- resp. backward-Euler recurrence assembled at the documented time, level 0 is the initial condition; observation = restriction at coinciding nodes/times, quadratic interpolation off-node (3 nodes: Lagrange reference), linear in the stored solution otherwise, followed by the observation map; grid equality flag follows grid resets; PDEModel.forward = assemble-solve-observe, gradient dispatch (gradient_wrt_parameter / jacobian_wrt_parameter / refusal)",
+         "3-4 nodes, 3-4 time levels; SciPy interpolants as linear-kernel stubs (their accuracy is outside the claim)"),
  'C19': ("every stored value a distinct symbol: burnthin(Nb,Nt) for ALL 0<=Nb<=Ns+1, 1<=Nt<=Ns+1 (Ns<=5/6, dims 1-3, 2-D function values, joint sets, chained calls) returns exactly columns b, b+t, ... with flags/geometry, refuses Nb>=Ns and leaves the source untouched; mean/variance/std/median/credible bounds equal the per-coordinate definitions for ALL values (lo<=median<=hi, width = hi-lo); statistics of function-value samples are those of the converted samples; arviz receives each variable's chain unpermuted",
          "numpy.median/percentile replaced by their order-statistic definition (min/max terms); arviz replaced by a recorder"),
  'C20': ("exhaustive over sizes (1D n=2..6/8, 2D up to 3x3/4x4), boundary conditions, orders 0-2 and spacings: operator rows equal reference stencils applied to a symbolic vector, 2D = documented Kronecker stacking, precision = D^T D, symmetric, x^T P x = |Dx|^2, null space exactly the one implied by the bc (both inclusions as SMT implications), GMRF rank / sqrtprec / log-determinant consistent with the precision",
